@@ -118,6 +118,12 @@ def build(ck):
     ck.explore(f'{CORE}.AdditionOperator.transpose', addition_transpose, T, axioms=axioms)
 
     # ------------------------------------------------------------------ block operators' transposes
+    block_transposes(ck, T, axioms)
+
+
+def block_transposes(ck, T, axioms):
+    """transposes of the three block operators: the column / diagonal / row operator of the transposed blocks (LA4)"""
+    P = ck.P
     DUAL = {'Row': 'Col', 'Diag': 'Diag', 'Col': 'Row'}
     CLS = {'Row': 'BlockRowOperator', 'Diag': 'BlockDiagonalOperator', 'Col': 'BlockColumnOperator'}
     for kind in ('Row', 'Diag', 'Col'):
